@@ -21,7 +21,8 @@ class DrivenSock(object):
         self.caps = list(caps) if caps else None
         self.n_send = 0
         self.error = 0
-        self.inbox = []
+        self.pending = bytearray()     # bytes the peer has sent and the client has not read yet
+        self.eof = False               # the peer has closed its end
         self.closed = False
         self.established = False
         self.wire = bytearray()
@@ -47,7 +48,13 @@ class DrivenSock(object):
         return n
 
     def recv(self, n):
-        return self.inbox.pop(0) if self.inbox else b""
+        if self.pending:
+            chunk = bytes(self.pending[:n])
+            del self.pending[:n]
+            return chunk
+        if self.eof:
+            return b""
+        raise BlockingIOError(errno.EWOULDBLOCK, "Resource temporarily unavailable")
 
     def close(self):
         self.closed = True
@@ -106,10 +113,71 @@ def driven_asyncore_class():
                 self.handle_error()
 
         def h_peer_close(self):
-            self._sock.inbox = [b""]
+            self._sock.eof = True
             self.handle_read_event()
 
         def h_data(self, data):
-            self._sock.inbox.append(data)
-            self.handle_read_event()
+            # a burst arrives; the loop reports the socket readable for as long as something is pending
+            self._sock.pending += data
+            while self._sock.pending and not self._sock.closed:
+                self.handle_read_event()
     return Driven, DA
+
+
+class ScriptedSocket(object):
+    """a blocking socket for the library's SocketConnectionDispatcher: connect() succeeds (or raises), recv() hands out the
+    scripted reads one by one and then reports the peer's close (b""); sendall() records"""
+
+    def __init__(self, reads, connect_error=None):
+        self.reads = list(reads)
+        self.connect_error = connect_error
+        self.wire = bytearray()
+        self.closed = False
+        self.shut = False
+
+    def connect(self, host):
+        if self.connect_error is not None:
+            raise self.connect_error
+
+    def recv(self, n):
+        if self.closed:
+            raise OSError(errno.EBADF, "Bad file descriptor")
+        if not self.reads:
+            return b""
+        item = self.reads.pop(0)
+        if callable(item):
+            item = item()
+        return item
+
+    def sendall(self, data):
+        if self.closed or self.shut:
+            raise OSError(errno.EPIPE, "Broken pipe")
+        self.wire += bytes(data)
+
+    def send(self, data):
+        self.sendall(data)
+        return len(data)
+
+    def shutdown(self, how):
+        self.shut = True
+
+    def close(self):
+        self.closed = True
+
+
+class SocketModuleShim(object):
+    """the socket module as dispatcher_socket sees it: socket() hands out the scripted sockets in order"""
+
+    def __init__(self, real, sockets):
+        self._real = real
+        self.sockets = list(sockets)
+        self.handed_out = []
+
+    def __getattr__(self, k):
+        return getattr(self._real, k)
+
+    def socket(self, *a, **k):
+        sk = self.sockets.pop(0)
+        self.handed_out.append(sk)
+        return sk
+
